@@ -150,10 +150,13 @@ CLAIMS = {
         "the documented calls: -n/-t/-s as asm_set_all in command-line order, then the long flags as asm_mov_imm, asm_sib, "
         "asm_sib_index_base_swap, asm_sib_no_base - through C12's refinement, AL.Spec.apply folded over them), getlines_join (the stdin pieces "
         "concatenate to the input), file_mode_is_library. Tie: the asmline executable on programs x 24 mode-flag sequences x 15 output-flag sets x "
-        "{stdin, FILE}: exit status, -P/-o file bytes, -b count vs the model; -p hex parsed back and -r value checked directly; programs with empty lines behind boundary-crossing instructions and with CR-only / CRLF line ends; the -b count from stdin equals the one from FILE.",
-   note="PARTIAL: getopt_long is assumed; what -p prints and the stdin/FILE equality on whole programs are checked on the executable (C06 "
-        "split_calls and C14 additivity are the two-call lemmas behind it), not proved end to end.",
-   technique="Lean 4 model of the command-line tool over the library model + refinement to the documented option table; differential run of the executable",
+        "{stdin, FILE}: exit status, -P/-o file bytes, -b count vs the model; -p hex parsed back and -r value checked directly; programs with empty lines behind boundary-crossing instructions and with CR-only / CRLF line ends; the -b count from stdin equals the one from FILE. "
+        "The printers are modelled too (AL.Impl.Debug: debug_without_chunksize with its row break in front of the eighth byte, debug_with_chunksize with `|` at chunk "
+        "boundaries, print_chunk_brks, asmline's print-once-at-the-end branch; cliStdout): C20.listing_reads_back and C20.chunk_dump_reads_back (kernel-checked, EVERY "
+        "option byte, text, chunk size and buffer contents: reading every pair of hexadecimal digits of what is printed gives the code bytes in order), and asmline's "
+        "stdout is compared with the model's CHARACTER BY CHARACTER on every invocation without -r.",
+   note="PARTIAL: getopt_long is assumed; -r (executing the code) is checked on the executable only; the usage text is not modelled.",
+   technique="Lean 4 model of the command-line tool and of its printers over the library model + refinement to the documented option table + read-back theorems; differential run of the executable (exit status, files, counts, stdout text)",
    design="8/C20"),
  "C09": dict(
    text="Theorems AL.Properties.C09.no_ub_line (for EVERY byte string and option byte the per-line pipeline ends in code, skip or "
